@@ -68,7 +68,7 @@ Base == [ops |-> {}, svc |-> {}, maxS |-> 0, maxC |-> 0, exp |-> 0,
          capUrl |-> "", capKey |-> "", capLogin |-> FALSE,
          bridges |-> {}, origins |-> {}, banned |-> {}]
 
-ValidBodies   == {"P", "A", "Ae", "Ab", "Ah", "B", "Bu", "C", "Cn", "Ce", "D", "E", "Z"}
+ValidBodies   == {"P", "A", "Ae", "Ab", "Ah", "Af", "B", "Bu", "C", "Cn", "Ce", "D", "E", "Z"}
 InvalidBodies == {"Xsyn", "Xtype", "Xdur", "Xhex", "Xbig"}
 AllBodies     == ValidBodies \cup InvalidBodies \cup {"R"}   \* "R" = re-post of what GET /config returned
 
@@ -81,6 +81,7 @@ Proj(b) ==
       [] b = "A" -> ProjA
       [] b = "Ae" -> ProjA                                      \* A + an empty [Banned] table
       [] b = "Ab" -> [ProjA EXCEPT !.banned = {"a1"}]           \* A + [Banned] listing a1
+      [] b = "Af" -> ProjA                                      \* A + a second origin listed with the value false
       [] b = "Ah" -> ProjA                                      \* A with > 1 MiB of comments in front of its tables
       [] b = "Bu" -> [Base EXCEPT !.exp = 60, !.ops = {"o1", "o2"}, !.svc = {"s2"}, !.maxC = 2,
                                   !.capUrl = "u2", !.capKey = "k1",   \* B with a CaptchaURL that net/url rejects
@@ -104,7 +105,7 @@ Proj(b) ==
 (* (GLINE'd or listed earlier); only "same" (the re-post of GET /config)     *)
 (* carries them over.  Otherwise-identical bodies: A/Ae/Ab, Cn/Ce/C.         *)
 BannedKind(b) ==
-    CASE b \in {"P", "A", "Ah", "Cn", "E", "Z"} -> "absent"
+    CASE b \in {"P", "A", "Ah", "Af", "Cn", "E", "Z"} -> "absent"
       [] b \in {"Ae", "Ce"}              -> "empty"
       [] b \in {"Ab", "B", "Bu", "C", "D"} -> "listed"
       [] b = "R"                         -> "same"
